@@ -288,6 +288,52 @@ def natBytesAux : Nat → Nat → Bytes → Bytes
 
 def natBytes (n : Nat) : Bytes := natBytesAux (n + 1) n []
 
+/-! ### the float64 arm of `decode` (cuctom_decode.go:95-120): caller-built `Raw` only -/
+
+/-- a Go float64, exactly: NaN, ±Inf, or `(−1)^neg · m · 2^e` (m < 2^53; ±0 is m = 0) -/
+inductive F64 where
+  | nan
+  | inf (neg : Bool)
+  | fin (neg : Bool) (m : Nat) (e : Int)
+
+/-- |integer part| of `math.Modf` (truncation toward zero) -/
+def f64TruncAbs (m : Nat) (e : Int) : Nat := if e ≥ 0 then m * 2 ^ e.toNat else m / 2 ^ (-e).toNat
+/-- `f != 0` for the fractional part of `math.Modf` -/
+def f64FracNonzero (m : Nat) (e : Int) : Bool := if e ≥ 0 then false else m % 2 ^ (-e).toNat != 0
+
+/-- `int64(i)` for a float64 `i` (amd64: out of range gives MinInt64) -/
+def cvtI64 (i : Int) : Int :=
+  if i < NumericDate.minInt64 ∨ i > NumericDate.maxInt64 then NumericDate.minInt64 else i
+/-- `uint64(i)` for a float64 `i` (out of range is implementation-defined; amd64 gives 2^63 for 2^64) -/
+def cvtU64 (i : Int) : Nat := if i < 0 ∨ i ≥ 2 ^ 64 then 2 ^ 63 else i.toNat
+
+/-- float64 into a signed integer kind: `i, f := math.Modf(in); if f != 0 || i >= 1<<63 ||
+    i < math.MinInt64 || out.OverflowInt(int64(i)) { error }; out.SetInt(int64(i))`.
+    For NaN and ±Inf the fractional part is NaN, so `f != 0` holds. -/
+def decodeF64Int (bits : Nat) : F64 → Outcome Int
+  | .nan => .err "overflow"
+  | .inf _ => .err "overflow"
+  | .fin neg m e =>
+    let i : Int := if neg then -(f64TruncAbs m e : Int) else f64TruncAbs m e
+    if f64FracNonzero m e ∨ i ≥ 2 ^ 63 ∨ i < NumericDate.minInt64 ∨ overflowInt bits (cvtI64 i) then .err "overflow"
+    else .ok (cvtI64 i)
+
+/-- float64 into an unsigned integer kind: `… i >= 1<<64 || i < 0 || out.OverflowUint(uint64(i))` -/
+def decodeF64Uint (bits : Nat) : F64 → Outcome Nat
+  | .nan => .err "overflow"
+  | .inf _ => .err "overflow"
+  | .fin neg m e =>
+    let i : Int := if neg then -(f64TruncAbs m e : Int) else f64TruncAbs m e
+    if f64FracNonzero m e ∨ i ≥ 2 ^ 64 ∨ i < 0 ∨ overflowUint bits (cvtU64 i) then .err "overflow"
+    else .ok (cvtU64 i)
+
+def F64.ofWire (w : Wire) : F64 :=
+  let a := w.asArr
+  match (a.getD 0 .none).asStr with
+  | "nan" => .nan
+  | "inf" => .inf (a.getD 1 .none).asBool
+  | _ => .fin (a.getD 1 .none).asBool (a.getD 2 .none).asNat (a.getD 3 .none).asInt
+
 /-! ### encode -/
 
 def mapM {α β} (f : α → PO β) : List α → PO (List β)
